@@ -99,6 +99,14 @@ class Text(str):
 
 def build(recipe):
     kind = recipe[0]
+    if kind == 'call':
+        # a callable bound to the name: looked up by name it is called without arguments and its
+        # result is the value ("callable objects ... are called during retrieval")
+        result = build(recipe[1])
+
+        def value_of_the_name():
+            return result
+        return value_of_the_name
     if kind == 'decimal':
         from decimal import Decimal
         return Decimal(recipe[1])
@@ -362,7 +370,7 @@ def source(case):
     """Template source of a case: the single tag between '[' and ']' sentinels."""
     syntax = case['syntax']
     undefined = case['value'][0] == 'undefined'
-    name = 'nope' if undefined else 'x'
+    name = case.get('varname') or ('nope' if undefined else 'x')
     opts = case['opts']
     quote = bool(case.get('quote'))
     attrs = ' '.join(_attr(n, v, quote) for n, v in opts)
@@ -435,7 +443,15 @@ def predict(case, order, observed_stage=None, sequence=None, position_only=None)
             p.replaced = 'missing'
             return p
         return skip('undefined name without missing=')
-    val = build(case['value'])
+    if case['value'][0] == 'call':
+        # a callable bound to the name: a lookup by name calls it, the result is the value
+        if case['form'] != 'name':
+            return skip('callable value read through expr= (not called)')
+        if 'url' in opts:
+            return skip('url option on a callable')
+        val = build(case['value'][1])
+    else:
+        val = build(case['value'])
     p.plain = text_of(val)
     if 'url' in opts:
         if not hasattr(val, 'absolute_url'):
@@ -517,3 +533,228 @@ def predict(case, order, observed_stage=None, sequence=None, position_only=None)
         s = m_truncate(s, size, etc)
     p.text = s
     return p
+
+
+# ------------------------------------------------------------------ the tag inside enclosing blocks
+# The statement makes the text of a dtml-var tag a function of the tag and of the value bound to its
+# name.  The wrappers below place ONE tag source T (written between its '[' ']' sentinels) in the
+# sections of the block tags; every wrapper is built so that the number of times T is rendered does not
+# depend on anything this property does not fix: either T stands in every alternative (the output is
+# the same whichever branch the engine takes), or the wrapper is marked optional (the output is T or the
+# marker text of the alternative).  Helper names of the namespace: yes (1), no (0), nix (never defined),
+# seq1 (one item), seq2 (two items), empty, nsempty ({}), ns / maps / inst / v (hold the value).
+OTHER = '(other)'
+BLOCK_SYNTAXES = ('dtml', 'ssi', 'epfs')
+
+
+class Holder:
+    """Instance whose attributes are the namespace (dtml-with on an object, client argument)."""
+
+
+def _writers(syn):
+    if syn == 'dtml':
+        return (lambda t, a='': '<dtml-%s%s>' % (t, ' ' + a if a else ''),
+                lambda t: '</dtml-%s>' % t,
+                lambda t, a: '<dtml-%s %s>' % (t, a))
+    if syn == 'ssi':
+        return (lambda t, a='': '<!--#%s%s-->' % (t, ' ' + a if a else ''),
+                lambda t: '<!--#/%s-->' % t,
+                lambda t, a: '<!--#%s %s-->' % (t, a))
+    if syn == 'epfs':
+        return (lambda t, a='': '%%(%s%s)[' % (t, ' ' + a if a else ''),
+                lambda t: '%%(%s)]' % t,
+                lambda t, a: '%%(%s %s)%s' % (t, a, 's' if t == 'var' else '!'))     # '!': a non-block command
+    raise ValueError(syn)
+
+
+def _block_table():
+    """[(key, family, place, n, alt, needs, build(o, c, s, T, N) -> source)]
+
+    n: how often the tag is rendered (1, 2, 'len' = once per item of the value, once if it is empty),
+    'opt' = once or the text `alt` instead, 'lead' = once, possibly after `alt`.
+    needs: None, or what the wrapper itself demands of the name: 'defined', 'seq' (a list / tuple),
+    'dict' (a mapping)."""
+    W = []
+
+    def add(key, family, fn, n=1, place='outer', alt=None, needs=None):
+        W.append((key, family, place, n, alt, needs, fn))
+
+    def cond(o, c, branches, els=None):
+        out = []
+        for i, (a, body) in enumerate(branches):
+            out.append(o('if' if i == 0 else 'elif', a) + body)
+        if els is not None:
+            out.append(o('else') + els)
+        return ''.join(out) + c('if')
+
+    def unless(o, c, a, body):
+        return o('unless', a) + body + c('unless')
+
+    def blk(o, c, t, a, body):
+        return o(t, a) + body + c(t)
+
+    # ---- dtml-if / elif / else / unless testing the SAME name as a plain name
+    add('if-same/both', 'if-same', lambda o, c, s, T, N: cond(o, c, [(N, T)], T))
+    add('if-same/else-only', 'if-same', lambda o, c, s, T, N: cond(o, c, [(N, OTHER)], T), n='opt', alt=OTHER)
+    add('if-same/then-only', 'if-same', lambda o, c, s, T, N: cond(o, c, [(N, T)], OTHER), n='opt', alt=OTHER)
+    add('if-same/no-else', 'if-same', lambda o, c, s, T, N: cond(o, c, [(N, T)]), n='opt', alt='')
+    add('if-same/name-attr', 'if-same', lambda o, c, s, T, N: cond(o, c, [('name=' + N, T)], T))
+    add('elif-same', 'if-same', lambda o, c, s, T, N: cond(o, c, [('nix', OTHER), (N, T)], T))
+    add('if-same/elif-other', 'if-same', lambda o, c, s, T, N: cond(o, c, [(N, T), ('nix', OTHER)], T))
+    add('if-same/elif-same', 'if-same', lambda o, c, s, T, N: cond(o, c, [(N, T), (N, T)], T))
+    add('if-same/elif-false-else', 'if-same', lambda o, c, s, T, N: cond(o, c, [(N, T), ('no', OTHER)], T))
+    add('unless-same', 'unless-same', lambda o, c, s, T, N: unless(o, c, N, T), n='opt', alt='')
+    add('unless-same+if-same', 'unless-same', lambda o, c, s, T, N: unless(o, c, N, T) + cond(o, c, [(N, T)]))
+    add('if-same+unless-same', 'unless-same', lambda o, c, s, T, N: cond(o, c, [(N, T)]) + unless(o, c, N, T))
+    # ---- second nesting level, other names in between
+    add('nest/else(if-other)', 'nested', lambda o, c, s, T, N: cond(o, c, [(N, T)], cond(o, c, [('nix', OTHER)], T)))
+    add('nest/other(if-same)', 'nested', lambda o, c, s, T, N: cond(o, c, [('nix', OTHER)], cond(o, c, [(N, T)], T)))
+    add('nest/same(unless-same)', 'nested',
+        lambda o, c, s, T, N: cond(o, c, [(N, T)], unless(o, c, N, T) + cond(o, c, [(N, T)])))
+    add('nest/unless-other(if-same)', 'nested', lambda o, c, s, T, N: unless(o, c, 'no', cond(o, c, [(N, T)], T)))
+    add('nest/3-levels', 'nested',
+        lambda o, c, s, T, N: cond(o, c, [('nix', OTHER)], cond(o, c, [('no', OTHER)], cond(o, c, [(N, T)], T))))
+    add('nest/same(same)', 'nested',
+        lambda o, c, s, T, N: cond(o, c, [(N, cond(o, c, [(N, T)], T))], cond(o, c, [(N, T)], T)))
+    # ---- conditions that are expressions, conditions on other names
+    add('if-expr-has_key', 'if-expr',
+        lambda o, c, s, T, N: cond(o, c, [('expr="_.has_key(\'%s\')"' % N, T)], T))
+    add('if-expr-other', 'if-expr', lambda o, c, s, T, N: cond(o, c, [('expr="yes + 1 == 2"', T)], OTHER))
+    add('if-other-true', 'if-other', lambda o, c, s, T, N: cond(o, c, [('yes', T)], OTHER))
+    add('if-other-false', 'if-other', lambda o, c, s, T, N: cond(o, c, [('no', OTHER)], T))
+    add('if-other-undefined', 'if-other', lambda o, c, s, T, N: cond(o, c, [('nix', OTHER)], T))
+    add('unless-other', 'if-other', lambda o, c, s, T, N: unless(o, c, 'no', T))
+    add('unless-other-undefined', 'if-other', lambda o, c, s, T, N: unless(o, c, 'nix', T))
+    # ---- the tag before / after / in two blocks of one template
+    add('before+if-same', 'sequence', lambda o, c, s, T, N: T + cond(o, c, [(N, T)], T), n=2)
+    add('if-same+after', 'sequence', lambda o, c, s, T, N: cond(o, c, [(N, T)], T) + T, n=2)
+    add('if-same twice', 'sequence', lambda o, c, s, T, N: cond(o, c, [(N, T)], T) + cond(o, c, [(N, T)], T), n=2)
+    add('unless-same+after', 'sequence', lambda o, c, s, T, N: unless(o, c, N, OTHER) + T, n='lead', alt=OTHER)
+    # ---- dtml-in
+    add('in/one-item', 'in', lambda o, c, s, T, N: blk(o, c, 'in', 'seq1', T))
+    add('in/two-items', 'in', lambda o, c, s, T, N: blk(o, c, 'in', 'seq2', T), n=2)
+    add('in/else', 'in', lambda o, c, s, T, N: o('in', 'empty') + OTHER + o('else') + T + c('in'))
+    add('in/mapping-item', 'in', lambda o, c, s, T, N: blk(o, c, 'in', 'maps mapping', T), place='inmap')
+    add('in/if-same', 'in', lambda o, c, s, T, N: blk(o, c, 'in', 'seq2', cond(o, c, [(N, T)], T)), n=2)
+    add('if-same/in', 'in',
+        lambda o, c, s, T, N: cond(o, c, [(N, blk(o, c, 'in', 'seq1', T))], blk(o, c, 'in', 'seq1', T)))
+    # the block tag itself reads the name (a sequence): once per item, or once in the else section
+    add('in-same', 'in', lambda o, c, s, T, N: o('in', N) + T + o('else') + T + c('in'), n='len', needs='seq')
+    add('in-same/if-same', 'in',
+        lambda o, c, s, T, N: o('in', N) + cond(o, c, [(N, T)], T) + o('else') + T + c('in'), n='len', needs='seq')
+    add('in/mapping-item/if-same', 'in',
+        lambda o, c, s, T, N: blk(o, c, 'in', 'maps mapping', cond(o, c, [(N, T)], T)), place='inmap')
+    # ---- dtml-with
+    add('with/mapping-holds', 'with', lambda o, c, s, T, N: blk(o, c, 'with', 'ns mapping', T), place='withmap')
+    add('with/mapping-empty', 'with', lambda o, c, s, T, N: blk(o, c, 'with', 'nsempty mapping', T))
+    add('with/expr-mapping', 'with', lambda o, c, s, T, N: blk(o, c, 'with', 'expr="nsempty" mapping', T))
+    add('with/instance', 'with', lambda o, c, s, T, N: blk(o, c, 'with', 'inst', T), place='inst')
+    add('with/only', 'with', lambda o, c, s, T, N: blk(o, c, 'with', 'ns mapping only', T), place='withmap')
+    add('with/if-same', 'with',
+        lambda o, c, s, T, N: blk(o, c, 'with', 'ns mapping', cond(o, c, [(N, T)], T)), place='withmap')
+    add('with-same/mapping', 'with', lambda o, c, s, T, N: blk(o, c, 'with', N + ' mapping', T), needs='dict')
+    add('if-same/with', 'with',
+        lambda o, c, s, T, N: cond(o, c, [(N, blk(o, c, 'with', 'nsempty mapping', T))],
+                                   blk(o, c, 'with', 'nsempty mapping', T)))
+    # ---- dtml-let
+    add('let/other', 'let', lambda o, c, s, T, N: blk(o, c, 'let', 'q=yes', T))
+    add('let/bind-name', 'let', lambda o, c, s, T, N: blk(o, c, 'let', N + '=v', T), place='let', needs='defined')
+    add('let/bind-expr', 'let', lambda o, c, s, T, N: blk(o, c, 'let', N + '="v"', T), place='let', needs='defined')
+    add('let/from-same', 'let', lambda o, c, s, T, N: blk(o, c, 'let', 'q=' + N, T), needs='defined')
+    add('let/rebind-same', 'let', lambda o, c, s, T, N: blk(o, c, 'let', '%s=%s' % (N, N), T), needs='defined')
+    add('let/rebind-same/if-same', 'let',
+        lambda o, c, s, T, N: blk(o, c, 'let', '%s=%s' % (N, N), cond(o, c, [(N, T)], T)), needs='defined')
+    add('let/if-same', 'let', lambda o, c, s, T, N: blk(o, c, 'let', 'q="1"', cond(o, c, [(N, T)], T)))
+    add('if-same/let', 'let',
+        lambda o, c, s, T, N: cond(o, c, [(N, blk(o, c, 'let', 'q=no', T))], blk(o, c, 'let', 'q=no', T)))
+    # ---- dtml-try
+    rais = lambda o, c: o('raise', 'KeyError') + 'k' + c('raise')      # noqa: E731
+    add('try/body', 'try', lambda o, c, s, T, N: o('try') + T + o('except') + OTHER + c('try'))
+    add('try/handler', 'try', lambda o, c, s, T, N: o('try') + rais(o, c) + o('except') + T + c('try'))
+    add('try/named-handler', 'try',
+        lambda o, c, s, T, N: o('try') + rais(o, c) + o('except', 'KeyError') + T + c('try'))
+    add('try/else', 'try', lambda o, c, s, T, N: o('try') + o('except') + OTHER + o('else') + T + c('try'))
+    add('try/finally-body', 'try', lambda o, c, s, T, N: o('try') + T + o('finally') + c('try'))
+    add('try/lookup-same', 'try',
+        lambda o, c, s, T, N: (o('try') + s('call', 'expr="_[\'%s\']"' % N) + o('except') + T + o('else') + T
+                               + c('try')))
+    add('try/handler/if-same', 'try',
+        lambda o, c, s, T, N: o('try') + rais(o, c) + o('except') + cond(o, c, [(N, T)], T) + c('try'))
+    add('if-same/try', 'try',
+        lambda o, c, s, T, N: cond(o, c, [(N, o('try') + T + o('except') + OTHER + c('try'))],
+                                   o('try') + rais(o, c) + o('except') + T + c('try')))
+    # ---- the tag in a template of its own, called by name from the block
+    add('sub/plain', 'sub-template', lambda o, c, s, T, N: s('var', 'sub'), place='sub')
+    add('sub/if-same', 'sub-template',
+        lambda o, c, s, T, N: cond(o, c, [(N, s('var', 'sub'))], s('var', 'sub')), place='sub')
+    add('sub/in', 'sub-template', lambda o, c, s, T, N: blk(o, c, 'in', 'seq2', s('var', 'sub')), place='sub', n=2)
+    return W
+
+
+BLOCKS = _block_table()
+BLOCK_KEYS = tuple(w[0] for w in BLOCKS)
+BLOCK_FAMILIES = tuple(sorted(set(w[1] for w in BLOCKS)))
+_BLOCK_BY_KEY = dict((w[0], w) for w in BLOCKS)
+
+
+def block_info(key):
+    """(family, place, n, alt, needs) of a wrapper."""
+    w = _BLOCK_BY_KEY[key]
+    return w[1], w[2], w[3], w[4], w[5]
+
+
+def block_source(key, wsyntax, tag_source, name='x'):
+    """Template source of wrapper `key` written in `wsyntax` around the tag source (with sentinels)."""
+    o, c, s = _writers(wsyntax)
+    return _BLOCK_BY_KEY[key][6](o, c, s, tag_source, name)
+
+
+def block_namespace(place, defined, value, name='x', sub=None):
+    """The names a wrapper needs; the value is bound where the wrapper's `place` says."""
+    ns = {'yes': 1, 'no': 0, 'seq1': [7], 'seq2': ['a', 'b'], 'empty': [], 'nsempty': {}}
+    if place in ('outer', 'sub'):
+        if defined:
+            ns[name] = value
+        if place == 'sub':
+            ns['sub'] = sub
+    elif place == 'withmap':
+        ns['ns'] = {name: value} if defined else {}
+    elif place == 'inmap':
+        ns['maps'] = [{name: value} if defined else {}]
+    elif place == 'inst':
+        h = Holder()
+        if defined:
+            setattr(h, name, value)
+        ns['inst'] = h
+    elif place == 'let':
+        assert defined
+        ns['v'] = value
+    else:
+        raise ValueError(place)
+    return ns
+
+
+def block_admits(needs, state):
+    """Can the wrapper be rendered at all with the name in this state?"""
+    kind = state[0]
+    inner = state[1][0] if kind == 'call' else kind
+    if needs is None:
+        return True
+    if kind == 'undefined':
+        return False
+    if needs == 'seq':
+        return inner in ('list', 'tuple')
+    if needs == 'dict':
+        return kind == 'dict'
+    return True
+
+
+def block_expected(n, alt, tagtext, value=None):
+    """The texts the wrapper may print when the tag prints `tagtext` (with its sentinels)."""
+    if n == 'len':
+        return (tagtext * (len(value) or 1),)
+    if n == 'opt':
+        return (tagtext, alt)
+    if n == 'lead':
+        return (tagtext, alt + tagtext)
+    return (tagtext * n,)
